@@ -148,8 +148,26 @@ def in_domain(nodes):
     return len(set(ids)) == len(ids) and acyclic2(nodes)
 
 
-def import_lines(ctx, lines, cfg, name="g.gff3", header=True):
-    path = dbside.write_lines(os.path.join(ctx.scratch, name), (["##gff-version 3"] if header else []) + list(lines))
+def import_lines(ctx, lines, cfg, name="g.gff3", header=True, form="text"):
+    """form 'gz_crlf': the same lines in a gzip file with CR LF line ends (gzip hands out bytes lines; no universal-newline
+    translation); form 'escape_switch': imported while constants.ignore_url_escape_characters is True (used for files
+    without any '%', on which the switch must not matter)"""
+    all_lines = (["##gff-version 3"] if header else []) + list(lines)
+    if form == "gz_crlf":
+        import gzip
+        path = os.path.join(ctx.scratch, name + ".gz")
+        with gzip.open(path, "wb") as fh:
+            fh.write("".join(l + "\r\n" for l in all_lines).encode("utf-8"))
+        return dbside.py_create(path, cfg)
+    path = dbside.write_lines(os.path.join(ctx.scratch, name), all_lines)
+    if form == "escape_switch":
+        import gffutils
+        old = gffutils.constants.ignore_url_escape_characters
+        gffutils.constants.ignore_url_escape_characters = True
+        try:
+            return dbside.py_create(path, cfg)
+        finally:
+            gffutils.constants.ignore_url_escape_characters = old
     return dbside.py_create(path, cfg)
 
 
@@ -356,7 +374,7 @@ def judge(ctx, case):
     if sc == "delete_readd":
         check_delete_readd(ctx, case, nodes, res)
         return res
-    db, rep = import_lines(ctx, lines, cfg)
+    db, rep = import_lines(ctx, lines, cfg, form=case.get("input_form", "text"))
     if not check_created(case, db, rep, res):
         return res
     if sc == "import":
@@ -389,7 +407,8 @@ def run(ctx):
                 "other Parent values; 35% of the graphs with ids (and Parent values) holding literal percent sequences "
                 "('gene%3A7', written ID=gene%253A7), bare '%', and the reserved characters ; , = & (written %3B %2C %3D "
                 "%26), space, colon - minimally, fully or lower-case percent-encoded in the file - now and then next to an "
-                "unrelated feature whose id is the once-more-decoded text. "
+                "unrelated feature whose id is the once-more-decoded text; one ordering of every graph is read from a gzip file with "
+                "CR LF line ends or (no '%' in the file) under constants.ignore_url_escape_characters=True. "
                 "non-trivial = distinct graph with >= 1 level-2 relation")
     cmds, exp, tags = [], [], []
     ngraphs = 150 if not ctx.thorough else 900      # 900 graphs (was 1000): the thorough tier sits at its ~10 min budget
@@ -420,9 +439,15 @@ def run(ctx):
         for oi, order in enumerate(orders):
             lines = [base_lines[i] for i in order]
             onodes = [nodes[i] for i in order]
-            db, rep = import_lines(ctx, lines, cfg)
+            # the second ordering of every graph is read in another input form: a gzip file with CR LF line ends, or
+            # (files without '%' only) under the ignore_url_escape_characters switch
+            form = "text"
+            if oi == 1:
+                form = "gz_crlf" if gi % 2 == 0 else ("escape_switch" if not any("%" in l for l in lines) else "text")
+                res.count("import_form_" + form)
+            db, rep = import_lines(ctx, lines, cfg, form=form)
             res.evaluations += 1
-            if not check_created(mk_case("import", lines, onodes, permutation=oi), db, rep, res):
+            if not check_created(mk_case("import", lines, onodes, permutation=oi, input_form=form), db, rep, res):
                 continue
             rels = sorted(dbside.rels_of(db))
             if first_rel is None:
@@ -431,7 +456,7 @@ def run(ctx):
                 check_order(mk_case("order_independence", lines, onodes, rank=[pos0[i] for i in order],
                                     parallel=["records", "rank"]), rels, first_rel, res)
             if oi < 3 or oi == len(orders) - 1:
-                check_db(db, onodes, res, mk_case("import", lines, onodes, permutation=oi))
+                check_db(db, onodes, res, mk_case("import", lines, onodes, permutation=oi, input_form=form))
             if oi == 0:
                 if lvl2:
                     res.nontriv(tuple(base_lines))
